@@ -117,6 +117,7 @@ def curved_specs(chk):
             return spec, type(back).__name__, {k: v for k, v in vars(back).items() if k != "_centroid"}, vars(obj)
         for p in chk.explore(fkey, run):
             if p.kind != "return":
+                chk.path_raised(fkey, p)
                 continue
             t = path_tag(p)
             spec, back_cls, back_fields, fields = p.value
@@ -140,6 +141,7 @@ def curved_specs(chk):
         return out, err, obj.volume, obj.a
     for p in chk.explore(fkey, run_j):
         if p.kind != "return":
+            chk.path_raised(fkey, p)
             continue
         out, err, vol, aa = p.value
         ok = list(out) == ["volume", "a", "centroid"] and sp.expand(ex(out["volume"]) - ex(vol)) == 0 and ex(out["a"]) == ex(aa)
@@ -159,6 +161,7 @@ def curved_specs(chk):
             return d, c0, [ex(x) for x in obj.centroid]
         for p in chk.explore(fkey, run_h):
             if p.kind != "return":
+                chk.path_raised(fkey, p)
                 continue
             t = path_tag(p)
             d, c0, c1 = p.value
